@@ -163,7 +163,33 @@ def parseOp (ws : List String) : Option (Nat × Nat × Op) :=
     | _, _ => none
   | _ => none
 
+/-- `<h> <t> <u> fund <i> <amt> collect|config …`: a message that takes no funds sent with coins of pool
+    asset `i` attached: on the model TWO operations of the history — the donation, then the message — or none
+    when either fails (the transaction is atomic) -/
+def fundLine (s : St) (h t u i a : String) (inner : List String) : St × String :=
+  match parseOp [h, t, u, "donate", i, a], parseOp (h :: t :: u :: inner) with
+  | some (hh, uu, don), some (_, _, op) =>
+    let allowed := match inner with
+      | "collect" :: _ => true
+      | "config" :: _ => true
+      | _ => false
+    let native := match i.toNat? with
+      | some k => k < 3 && s.kind k
+      | none => false
+    if !allowed || !native || a.toNat? == some 0 then (s, "bad-op")
+    else
+      match step hh uu s don with
+      | .ok s1 =>
+        match step hh uu s1 op with
+        | .ok s' => (s', "ok " ++ obs s')
+        | r => (s, outcome r ++ " " ++ obs s)
+      | r => (s, outcome r ++ " " ++ obs s)
+  | _, _ => (s, "bad-op")
+
 def opLine (s : St) (ws : List String) : St × String :=
+  match ws with
+  | h :: t :: u :: "fund" :: i :: a :: inner => fundLine s h t u i a inner
+  | _ =>
   match parseOp ws with
   | none => (s, "bad-op")
   | some (h, u, op) =>
